@@ -1,5 +1,6 @@
 import FemtoVerif.Driver.Gc
 import FemtoVerif.Model.Writers
+import FemtoVerif.Spec.C08
 open Lean
 
 namespace Femto.Driver.C08
@@ -14,27 +15,52 @@ def nasuOf (j : Json) : Except String Nasu := do
     pure { pts := ← jList? ptOf (← field j "pts"), adjScan := ← jNat? (← field j "adj_scan"), dx := dx, dy := dy, dz := dz }
   | _ => .error "shift must have three entries"
 
+/-- the part of a session before the user's operations (as in `Gc.session`) -/
+def headOf (cfg : Cfg) : Out :=
+  let h := seq (seq (emit (cfg.header ++ [.blank]), ({} : CS)) (dwell (some 1))) fun cs => (emit [.blank], cs)
+  if cfg.aeroAngle = 0 then h else seq h (enterRot cfg (some cfg.aeroAngle))
+
+def printedOf (cfg : Cfg) (m : List Pt) : Option (List (G1W × Rat)) :=
+  match printed cfg m with | .ok ws => some ws | .error _ => none
+
+/-- the moves theorem `C08.wg_groups_replayed` / `nasu_passes_replayed` / `mk_scans_replayed` promises for the structures,
+starting where the session head leaves the machine; `skip` = number of moves the head itself makes -/
+def specMoves (cfg : Cfg) (groups : Option (List (List (List (G1W × Rat)) × Nat))) : Json :=
+  match groups with
+  | none => Json.null
+  | some gs =>
+    let r := execStmts (headOf cfg).1 {}
+    obj [("skip", toJson (movesOf r.2).length), ("moves", listJ moveJ (groupsFrom r.1.pos gs))]
+
 /-- op `c08.writer`: `{cfg, kind: wg|nasu|mk, objs, export_dir, filename}` → model session of the writer + file name -/
 def writer (j : Json) : Except String Json := do
   let cfg ← cfgOf (← field j "cfg")
   let kind ← jStr? (← field j "kind")
   let dir ← jStr? (← field j "export_dir")
   let fname ← jStr? (← field j "filename")
-  let (ops, suffix, empty) ← match kind with
+  let (ops, suffix, empty, groups) ← match kind with
     | "wg" => do
       let bs ← jList? (jList? wgOf) (← field j "objs")
-      pure (wgOps bs, "_WG", bs.isEmpty)
+      let gs := bs.mapM fun b => do
+        let wss ← b.mapM fun w => printedOf cfg w.pts
+        pure (wss, (match b with | w :: _ => w.scan.toNat | [] => 0))
+      pure (wgOps bs, "_WG", bs.isEmpty, gs)
     | "nasu" => do
       let ws ← jList? nasuOf (← field j "objs")
-      pure (nasuOps ws, "_NASU", ws.isEmpty)
+      let gs := ws.mapM fun w => do
+        let wss ← (adjScanOrder w.adjScan).mapM fun k => printedOf cfg (shiftPts w.pts k w.dx w.dy w.dz)
+        pure (wss, 1)
+      pure (nasuOps ws, "_NASU", ws.isEmpty, gs)
     | "mk" => do
       let ms ← jList? wgOf (← field j "objs")
-      pure (mkOps ms, "_MK", ms.isEmpty)
+      let gs := ms.mapM fun m => do pure ([← printedOf cfg m.pts], m.scan.toNat)
+      pure (mkOps ms, "_MK", ms.isEmpty, gs)
     | _ => .error "unknown writer kind"
   let file := outFile dir fname suffix empty
   let r := session cfg ops
   pure <| obj [("file", match file with | some f => Json.str f | none => Json.null),
-               ("prog", analyse (flattenStmts r.1) false), ("reported_dwell", ratJ r.2.dwellTotal)]
+               ("prog", analyse (flattenStmts r.1) false), ("reported_dwell", ratJ r.2.dwellTotal),
+               ("spec", specMoves cfg groups)]
 
 /-- op `c08.adj`: `{n}` → adjacent pass order -/
 def adj (j : Json) : Except String Json := do
